@@ -121,6 +121,8 @@ func viaKey(v *Violation) string {
 	return v.Harness + "|" + v.Label + "|" + strings.Join(ks, ";")
 }
 
+var solverDiff string
+
 func runCheck(args []string) int {
 	id := args[0]
 	tier := envOr("VERIF_TIER", "quick")
@@ -159,6 +161,7 @@ func runCheck(args []string) int {
 		obs map[string]string
 	}
 	var passCases []passCase
+	var diffSamples []DiffSample
 
 	for _, h := range spec.Harnesses {
 		params := h.Quick
@@ -178,7 +181,7 @@ func runCheck(args []string) int {
 		}
 		params["seed"] = seed
 		r := &Run{Env: env, Harness: modPath + "/" + h.Fn, Params: params, MapOrder: h.MapOrder, PanicIsOK: h.PanicIsOK,
-			PoolDrain: h.PoolDrain, Fuel: h.Fuel, MergeOff: h.MergeOff, Quiet: false}
+			PoolDrain: h.PoolDrain, Fuel: h.Fuel, MergeOff: h.MergeOff, Quiet: false, DiffEvery: 97}
 		if strings.HasPrefix(h.Fn, ".") {
 			r.Harness = modPath + h.Fn
 		}
@@ -206,6 +209,13 @@ func runCheck(args []string) int {
 			fnHits[k] += n
 		}
 		allViol = append(allViol, r.Violations...)
+		if len(diffSamples) < 24 {
+			for _, ds := range r.DiffSamples {
+				if len(diffSamples) < 24 {
+					diffSamples = append(diffSamples, ds)
+				}
+			}
+		}
 		for i, s := range r.Samples {
 			if len(samples) < 12 {
 				samples = append(samples, map[string]interface{}{"harness": h.Fn, "inputs": renderInputs(s), "observed": r.SampleObs[i]})
@@ -322,6 +332,13 @@ func runCheck(args []string) int {
 			}
 		}
 	}
+
+	// ---- solver diff: sampled queries re-decided by z3 4.8.12 and cvc5
+	diffChecked, diffBad := RunDiff(diffSamples)
+	for _, d := range diffBad {
+		inconcl = append(inconcl, "solver disagreement: "+d)
+	}
+	solverDiff = fmt.Sprintf("%d sampled queries re-decided by z3 4.8.12 and cvc5 (%d solver runs), %d disagreements", len(diffSamples), diffChecked, len(diffBad))
 
 	// ---- classify
 	exit := 0
@@ -443,7 +460,8 @@ func writeEvidence(id, tier string, seed int, hev []harnessEvidence, samples []i
 		"holds":                         nviol == 0 && len(inconcl) == 0,
 		"known_findings_seen":           kf,
 		"bounds":                        spec.Bounds,
-		"solver":                        "z3 4.8.12 over a pipe (one process per worker), no set-logic",
+		"solver":                        "z3 5.1.0 (z3-new) over a pipe, one process per worker, no set-logic",
+		"solver_diff":                   solverDiff,
 	}
 	ev := map[string]interface{}{
 		"property_id": id,
